@@ -515,8 +515,8 @@ def execute(spec, prop, monitor):
                 max_resid[k] = max(max_resid.get(k, 0.0), r)
             for v in V.violations:
                 log.add("MONITOR", prop=prop, clause=v.clause, identity=v.identity)
-                key = (v.clause, v.identity.get("branch"), v.identity.get("flow"), v.identity.get("kind"))
-                if key in seen_classes:  # one witness per violation class (clause, branch/flow) and history
+                key = (v.clause, core.digest(v.identity))
+                if key in seen_classes:  # one witness per violation class (clause, identity) and history
                     continue
                 seen_classes.add(key)
                 v.witness = {"run": i, "country": run["country"], "strategy": run["strategy"], "months": run["months"],
